@@ -639,6 +639,21 @@ class TensorEval:
             r_ = self.prog.resolve(f.mod, fn) if not (isinstance(fn, ast.Attribute) and norm(fn.value) == 'self') else None
             if r_ and r_[0] == 'class' and self.prog.resolve_method(r_[1], '__init__') is not None and not r_[1].ext_bases:
                 return self.make_object(r_[1], args, kw)
+        if np_call and name == 'unpackbits' and len(args) == 1 and isinstance(args[0], np.ndarray) and args[0].dtype == object \
+                and kw.get('axis') in (1, -1) and args[0].ndim == 2 and kw.get('bitorder', 'big') == 'big':
+            # bytes of provenance words split into their bits, most significant first (one single-bit word per output cell)
+            from .bitvec import BV
+            src_ = args[0]
+            out_ = np.empty((src_.shape[0], src_.shape[1] * 8), dtype=object)
+            for i_ in range(src_.shape[0]):
+                for j_ in range(src_.shape[1]):
+                    w_ = BV.lift(src_[i_, j_])
+                    if len(w_.bits) > 8:
+                        raise Unknown('unpackbits of words wider than a byte')
+                    for b_ in range(8):
+                        out_[i_, j_ * 8 + b_] = BV([w_.get(7 - b_)])
+            cnt_ = kw.get('count')
+            return out_[:, :cnt_] if isinstance(cnt_, (int, np.integer)) else out_
         if isinstance(fn, ast.Attribute) and fn.attr == 'indices' and len(args) == 1 and isinstance(args[0], (int, np.integer)) and not kw:
             try:
                 recv_ = self.ev(f, fn.value, env)
